@@ -412,6 +412,36 @@ func cmdCheck(args []string) int {
 		jobRows = append(jobRows, row)
 	}
 
+	// ---- vacuity: every assertion label present in the harness code of this
+	// property's (non-twin) jobs must have been reached on a feasible path by some job
+	{
+		expected := map[string]bool{}
+		truncated := false
+		for _, r := range results {
+			if r.Job.ExpectViolation {
+				continue
+			}
+			if r.Truncated {
+				truncated = true
+			}
+			for _, l := range r.Expected {
+				expected[l] = true
+			}
+		}
+		if !truncated {
+			var miss []string
+			for l := range expected {
+				if a := asserts[l]; a == nil || a["reached"] == 0 {
+					miss = append(miss, l)
+				}
+			}
+			sort.Strings(miss)
+			for _, l := range miss {
+				inconclusive = append(inconclusive, "vacuous: assertion never reached by any job: "+l)
+			}
+		}
+	}
+
 	// ---- native side: translator validation of sampled paths, replay of counterexamples
 	runner, err := sym.NewNativeRunner(prog, harnessDir)
 	validated, valMismatch := 0, 0
